@@ -239,7 +239,67 @@ def random_input(r):
     return bytes(r.below(256) if r.random() < 0.5 else r.below(8) for _ in range(r.randint(0, 12)))
 
 
-GENS = {"uniform": uniform, "macro": macro, "pressure": pressure, "affine": affine, "bigconst": bigconst,
+def iopressure(r):
+    """many cells modified before and after an I/O operation inside a loop: keeps several
+    temporaries (register and, beyond 11, stack temporaries) live across runtime calls"""
+    k = r.randint(3, 14)
+    io_at = r.randint(0, k)
+
+    def sweep(ops):
+        s = ''
+        for i in range(1, k + 1):
+            s += '>' + r.choice(ops)
+        return s + '<' * k
+    pre = ''.join('>' + '+' * r.randint(0, 3) for _ in range(k)) + '<' * k if r.random() < 0.5 else ''
+    body = sweep(['-.', '+.', '--.', '-.', '+', '-.'] if r.random() < 0.7 else ['-', '+', '-.', '+', '--', '-'])
+    io = mv(io_at) + r.choice([',', ',', '.', ',.', '.,']) + mv(-io_at)
+    body += io
+    body += sweep(['-', '+', '-', '++', '-.'])
+    if io_at == 0 and ',' in io:
+        cond = ','            # runs until the input delivers 0 (end of input)
+    else:
+        cond = '+' * r.randint(1, 4)
+        body += '-'           # counted loop on cell 0
+    tail = ''.join('>.' for _ in range(min(k, 6)))
+    prog = pre + cond + '[' + body + ']' + tail
+    # keep the program balanced in moves inside the loop (sweeps return to the start cell)
+    return prog
+
+
+def dmul(a, b, dst, t=6):
+    """dst += a*b, a consumed (left 0), b preserved"""
+    return mv(a) + '[-' + mv(-a) + copy_add(b, dst, t=t) + mv(a) + ']' + mv(-a)
+
+
+def squares(r):
+    """squares and higher powers of the same cell, with an early use of the value, long live
+    ranges (runs of outputs) and the operand cells cleared right after the last use: same-cell
+    operands, read-and-clear fusion, value forwarding into memory operands"""
+    s = ','
+    if r.random() < 0.5:
+        s += at(5, ',')
+    kind = r.below(3)
+    if kind == 0:      # preserve x, copy into 1
+        s += copy_add(0, 1, 1, t=6)
+    elif kind == 1:    # move x destructively into 2 and 3
+        s += '[->>+>+<<<]'
+    else:              # early arithmetic use: [1] = x + c
+        s += copy_add(0, 1, 1, t=6) + at(1, '+' * r.randint(1, 3))
+    s += at(r.choice([0, 1, 2, 5]), '.' * r.choice([0, 1, 2, 15, 16, 17, 24]))
+    if kind == 1:
+        s += dmul(2, 3, 4, t=6) + r.choice([clear(3), '', at(3, '.')])
+    else:
+        s += r.choice([copy_add(0, 2, 1, t=6) + copy_add(0, 3, 1, t=6), '[->>+>+<<<]'])
+        s += dmul(2, 3, 4, t=6)
+        s += r.choice([clear(3), clear(0), clear(3) + clear(0), clear(1), ''])
+    if r.random() < 0.3:
+        s += copy_add(4, 7, 1, t=6) + dmul(7, 4, 8, t=6)
+    for c in r.sample([0, 1, 3, 4, 5, 8], r.randint(2, 6)):
+        s += at(c, '.')
+    return s
+
+
+GENS = {"uniform": uniform, "iopressure": iopressure, "squares": squares, "macro": macro, "pressure": pressure, "affine": affine, "bigconst": bigconst,
         "roam": roam, "diverge": diverge}
 
 
